@@ -10,12 +10,7 @@ import Mathlib.Tactic.Ring
 import Mathlib.Tactic.Linarith
 import Mathlib.Tactic.LinearCombination
 import OFV.Generated.C14
-import OFV.Proofs.GQRing
 
-<<<<<<< HEAD
-
-=======
->>>>>>> agentI
 namespace OFV.C14
 open OFV.Model.C14 OFV.Spec.C14
 
